@@ -487,12 +487,13 @@ class Runtime:
         if actual is not supplied:
             self.violation("arg-identity", f"call {nid} {where}: non-symbolic argument is not the supplied object")
 
-    def _file_mtime(self, name, t):
-        """The bundled file-store code path: a real file whose mtime is the
-        instant; uberjob.stores.get_modified_time reports it."""
+    def _file_mtime(self, name, t, how="file"):
+        """The bundled file-store code paths: a real file whose mtime is the instant, reported by
+        uberjob.stores.get_modified_time or by one of the bundled store classes built on it."""
         import os
+        import pathlib
 
-        from uberjob.stores import get_modified_time
+        import uberjob.stores as US
 
         d = self.cfg.get("scratch")
         path = os.path.join(d, name)
@@ -500,7 +501,18 @@ class Runtime:
             with open(path, "wb"):
                 pass
         os.utime(path, ns=(int(round(t * 1e9)), int(round(t * 1e9))))
-        return get_modified_time(path)
+        kind = how.split(":", 1)[1] if ":" in how else "helper"
+        if kind.endswith("+pathlib"):
+            kind, path = kind[:-8], pathlib.Path(path)
+        if kind == "helper":
+            return US.get_modified_time(path)
+        if kind == "path-source":
+            return US.PathSource(path).get_modified_time()
+        if kind == "path-source-optional":
+            return US.PathSource(path, required=False).get_modified_time()
+        cls = {"pickle": US.PickleFileStore, "json": US.JsonFileStore, "text": US.TextFileStore,
+               "binary": US.BinaryFileStore, "touch": US.TouchFileStore}[kind]
+        return cls(path).get_modified_time()
 
     # ---- stores ----------------------------------------------------------
     def _sdur(self, name, op):
@@ -603,8 +615,15 @@ class Runtime:
                 how = self.cfg.get("renders", {}).get(name, self.world["stores"][name].get("render"))
                 if t is None:
                     out = None
-                elif how == "file":
-                    out = self._file_mtime(name, t)
+                elif how == "file" or (isinstance(how, str) and how.startswith("file:")):
+                    out = self._file_mtime(name, t, how)
+                elif isinstance(how, (list, tuple)) and how[0] in ("mts", "lit"):
+                    # the bundled constant sources: they hand back the datetime they were given
+                    import uberjob.stores as US
+
+                    given = render_instant(t, how[1])
+                    src = US.ModifiedTimeSource(given) if how[0] == "mts" else US.LiteralSource(name, given)
+                    out = src.get_modified_time()
                 else:
                     out = render_instant(t, how)
                 if out is not None and out.tzinfo is None and out.fold:
